@@ -81,10 +81,11 @@ func c20SplitKeep(s string, sep byte) []string {
 var c20ErrScripted = errors.New("scripted remote failure")
 
 type c20ScriptCursor struct {
-	mu     sync.Mutex
-	script [5]string
-	pos    [5]int
-	Calls  []string
+	mu      sync.Mutex
+	script  [5]string
+	pos     [5]int
+	Calls   []string
+	planned bool
 }
 
 const (
@@ -107,6 +108,62 @@ func (c *c20ScriptCursor) next(kind int) byte {
 	c.pos[kind]++
 	c.Calls = append(c.Calls, c20KindNames[kind]+":"+string(o))
 	return o
+}
+
+// plan fixes the outcomes of the NEXT calls of one kind now (directed scenarios decide them step by
+// step, knowing the observed state): letters planned earlier and not consumed are dropped, calls
+// made beyond the script so far were successes ('o').  The script that results (current) replays
+// the same run.
+func (c *c20ScriptCursor) plan(kind int, letters string) {
+	c.mu.Lock()
+	defer c.mu.Unlock()
+	s := c.script[kind]
+	if len(s) > c.pos[kind] {
+		s = s[:c.pos[kind]]
+	}
+	for len(s) < c.pos[kind] {
+		s += "o"
+	}
+	c.script[kind] = s + letters
+	c.planned = true
+}
+
+// current: the script as it stands (after plan: cut at what was consumed).
+func (c *c20ScriptCursor) current() c20FailScript {
+	c.mu.Lock()
+	defer c.mu.Unlock()
+	sc := c.script
+	if c.planned {
+		for k := range sc {
+			if len(sc[k]) > c.pos[k] {
+				sc[k] = sc[k][:c.pos[k]]
+			}
+		}
+	}
+	return c20FailScript{sc[0], sc[1], sc[2], sc[3], sc[4]}
+}
+
+func (c *c20ScriptCursor) positions() [5]int {
+	c.mu.Lock()
+	defer c.mu.Unlock()
+	return c.pos
+}
+
+// consumedSince: the outcomes played since `from`, per kind
+func (c *c20ScriptCursor) consumedSince(from [5]int) [5]string {
+	c.mu.Lock()
+	defer c.mu.Unlock()
+	var out [5]string
+	for k := range out {
+		for i := from[k]; i < c.pos[k]; i++ {
+			if i < len(c.script[k]) {
+				out[k] += string(c.script[k][i])
+			} else {
+				out[k] += "o"
+			}
+		}
+	}
+	return out
 }
 
 func (c *c20ScriptCursor) TakeCalls() []string {
